@@ -28,8 +28,9 @@
 static int write_block_sizes(sqfs_meta_writer_t *ir,
 			     const sqfs_inode_generic_t *n)
 {
-	sqfs_u32 *sizes;
-	size_t i;
+	sqfs_u32 sizes[64];
+	size_t i, j, count;
+	int ret;
 
 	if (n->payload_bytes_used < sizeof(sizes[0]))
 		return 0;
@@ -37,12 +38,21 @@ static int write_block_sizes(sqfs_meta_writer_t *ir,
 	if ((n->payload_bytes_used % sizeof(sizes[0])) != 0)
 		return SQFS_ERROR_CORRUPTED;
 
-	sizes = alloca(n->payload_bytes_used);
+	count = n->payload_bytes_used / sizeof(sizes[0]);
 
-	for (i = 0; i < (n->payload_bytes_used / sizeof(sizes[0])); ++i)
-		sizes[i] = htole32(n->extra[i]);
+	/* the list can be arbitrarily long, convert it piece by piece */
+	for (i = 0; i < count; i += j) {
+		for (j = 0; j < (sizeof(sizes) / sizeof(sizes[0])) &&
+			     (i + j) < count; ++j) {
+			sizes[j] = htole32(n->extra[i + j]);
+		}
 
-	return sqfs_meta_writer_append(ir, sizes, n->payload_bytes_used);
+		ret = sqfs_meta_writer_append(ir, sizes, j * sizeof(sizes[0]));
+		if (ret)
+			return ret;
+	}
+
+	return 0;
 }
 
 static int write_dir_index(sqfs_meta_writer_t *ir, const sqfs_u8 *data,
